@@ -58,6 +58,9 @@ def _vm_vis(evs):
             out.append("VG %s%%nat" % e[1:])
         else:
             t, f = e[1:].split(":")
+            if e[0] == "U" and f == "2":
+                out.append("VL %s%%nat" % t)
+                continue
             out.append("V%s %s%%nat %s" % (e[0], t, "true" if f == "1" else "false"))
     return _vm_lst(out, "vis")
 
@@ -110,7 +113,7 @@ def _vm_goal(case, out):
             return ("match %s with Some (rs, _, log, _) => (rs, batches log) = (%s, %s) | None => False end"
                     % (call, _vm_results(o[4]), _vm_lst(b, "(nat * list nat)")))
         if p[0] == "X":
-            if "*" in out or out.startswith("UNJUDGED"):
+            if "*" in out:
                 return None
             r0 = "None" if p[2] == "none" else "(Some %s)" % _vm_lst([] if p[2] == "-" else ["(mkDesc %s 0 0)" % k for k in p[2].split(",")], "desc")
             call = "vis_summary %s %s %s %s" % ("true" if p[1][0] == "1" else "false", r0, _vm_changes(p[3]), _vm_vis(p[4:]))
@@ -119,7 +122,7 @@ def _vm_goal(case, out):
             # ACC R <r> I <i> U <u>
             idx = "None" if o[4] == "none" else "(Some %s)" % _vm_ns(o[4])
             us = [] if o[6] == "-" else [_vm_ns("" if x == "e" else x) for x in o[6].split(";")]
-            return ("match %s with Some (rs, idx, log, _) => (rs, idx, puts log) = (%s, %s, %s) | None => False end"
+            return ("match %s with Some (rs, idx, log, _) => (map (option_map seen) rs, idx, puts log) = (%s, %s, %s) | None => False end"
                     % (call, _vm_results(o[2]), idx, _vm_lst(us, "(list N)")))
     except Exception:
         return None
@@ -127,7 +130,7 @@ def _vm_goal(case, out):
 
 
 def _c14_vm_sample(d, tier, coq, build, want=300):
-    import os, subprocess, collections
+    import os, re, subprocess, collections
     if tier != "thorough":
         return []
     outs = {}
@@ -135,18 +138,24 @@ def _c14_vm_sample(d, tier, coq, build, want=300):
         for l in f:
             i, _, o = l.rstrip("\n").partition(" ")
             outs[i] = o
-    quota = {"A": 90, "R": 20, "F": 20, "T": 20, "K": 10, "D": 20, "M": 70, "X": 70, "L": 20}
+    quota = {"A": 90, "R": 20, "F": 20, "T": 20, "K": 10, "D": 20, "M": 70, "X": 70, "L": 20, "XL": 25}
+
+    def kind(c):
+        k = c.split(" ", 1)[0]
+        # XL: projected end-to-end lines with a LOST RESPONSE of the index PUT (EPutLost)
+        return "XL" if k == "X" and re.search(r" U\d+:2( |$)", c) else k
+
     total = collections.Counter()
     with open(os.path.join(d, "cases.txt")) as f:
         for l in f:
-            c = l.split(" ", 2)
-            if len(c) > 1:
-                total[c[1]] += 1
+            c = l.rstrip("\n").partition(" ")[2]
+            if c:
+                total[kind(c)] += 1
     got, stride, goals = collections.Counter(), collections.Counter(), []
     with open(os.path.join(d, "cases.txt")) as f:
         for l in f:
             i, _, c = l.rstrip("\n").partition(" ")
-            k = c.split(" ", 1)[0]
+            k = kind(c)
             if k not in quota or got[k] >= quota[k] or i not in outs:
                 continue
             stride[k] += 1
